@@ -18,7 +18,33 @@ def main():
             i += 1
     seed = int(os.environ.get('VERIF_SEED', '0'))
     P = importlib.import_module(pid.lower())
-    sys.exit(common.run_check(P, tier, seed, replay))
+    if replay:
+        import json
+        mod = json.load(open(replay)).get('module', pid.lower())
+        if mod != pid.lower():          # the replay was written by a supporting check of this property
+            sys.exit(common.run_check(importlib.import_module(mod), tier, seed, replay, report_as=pid))
+        sys.exit(common.run_check(P, tier, seed, replay))
+    rc = common.run_check(P, tier, seed, None)
+    # supporting checks (shared models that carry part of this property's "for all inputs" claim): same protocol, verdict reported
+    # under this property's id, summary merged into this property's evidence
+    for sid in getattr(P, 'SUPPORTING', []):
+        import json
+        S = importlib.import_module(sid.lower())
+        rc2 = common.run_check(S, tier, seed, None, report_as=pid)
+        rc = rc or rc2
+        path = f"{common.ROOT}/evidence/{pid}.json"
+        ev = json.load(open(path))
+        sev = common.LAST_EVIDENCE[S.ID]
+        cov = sev['coverage']
+        ev['coverage'].setdefault('supporting_checks', {})[S.ID] = {
+            k: cov.get(k) for k in ('obligations', 'discharged', 'property_theorems', 'print_assumptions_axioms', 'evaluations',
+                                    'distinct_nontrivial', 'rule', 'distribution', 'disagreements_model_vs_impl', 'spec_failures_on_impl',
+                                    'model_evaluated_in_coq', 'checker_cmd')} | {'violations': sev['violations'], 'wall_s': sev['wall_s'],
+                                                                                'evidence_file': f"evidence/support/{S.ID}-for-{pid}.json"}
+        ev['violations'] += sev['violations']
+        ev['wall_s'] = round(ev['wall_s'] + sev['wall_s'], 2)
+        json.dump(ev, open(path, 'w'), indent=1)
+    sys.exit(rc)
 
 
 main()
